@@ -12,14 +12,16 @@ import os
 import re
 import time
 
+from translate import footprint_exec, footprint_src
 from vlib import common as C
 from vlib import runner
 
 ASAN_TARGET = os.path.join(C.BUILD, "cargo-asan") if C.ALT is None else os.path.join(C.BUILD, C.ALT, "cargo-asan")
 ASAN_TRIPLE = "x86_64-unknown-linux-gnu"
 ASAN_BIN = os.path.join(ASAN_TARGET, ASAN_TRIPLE, "debug", "footprint")
+ASAN_REL_BIN = os.path.join(ASAN_TARGET, ASAN_TRIPLE, "release", "footprint")
 ASAN_CMD = ("RUSTFLAGS='-Zsanitizer=address --cfg lm_asan' cargo +nightly build --offline --target %s "
-            "--target-dir %s --bin footprint" % (ASAN_TRIPLE, ASAN_TARGET))
+            "--target-dir %s --bin footprint [--release]" % (ASAN_TRIPLE, ASAN_TARGET))
 
 _state = {"asan": None}
 
@@ -40,8 +42,10 @@ def build_asan(timeout=1800):
     cmd = "cargo +nightly build --offline --target %s --target-dir %s --bin footprint" % (ASAN_TRIPLE, ASAN_TARGET)
     with C.Lock("cargo-asan" if C.ALT is None else "cargo-asan-" + C.ALT):
         rc, out = C.sh(cmd, cwd=C.harness_dir(), timeout=timeout, env=env)
-    ok = rc == 0 and os.path.exists(ASAN_BIN)
-    _state["asan"] = dict(ok=ok, log=out, path=ASAN_BIN, wall=time.time() - t0)
+        # ... and once more in release mode (opt-level 3, no overflow checks, no debug assertions)
+        rc2, out2 = C.sh(cmd + " --release", cwd=C.harness_dir(), timeout=timeout, env=env)
+    ok = rc == 0 and os.path.exists(ASAN_BIN) and rc2 == 0 and os.path.exists(ASAN_REL_BIN)
+    _state["asan"] = dict(ok=ok, log=out + out2, path=ASAN_BIN, rel_path=ASAN_REL_BIN, wall=time.time() - t0)
     return _state["asan"]
 
 
@@ -70,6 +74,36 @@ def _extra(ctx):
         out.append(("INFRA", "sanitizer self-test failed (rc=%d): %s" % (rc, o[-1500:]), ""))
     else:
         ctx["notes"].append("sanitizer self-test: " + o.strip().replace("\n", "; ")[-400:])
+    out.extend(_source_footprints(ctx))
+    return out
+
+
+def _source_footprints(ctx):
+    """Access lists derived from the kernels' SOURCE by translate/footprint_exec.py on a parameter grid,
+    compared by the driver (`srcfp` mode) with the extracted Coq model and checked by all_ok."""
+    out = []
+    drv = ctx.get("driver")
+    if not drv or not drv.get("ok"):
+        return out
+    try:
+        lines, errors = footprint_exec.lines(ctx["tier"])
+    except Exception as e:      # the interpreter itself must never crash the check
+        return [("DIFF", "source interpreter raised %r" % (e,), "")]
+    for e in errors[:4]:
+        out.append(("DIFF", "source-derived footprint: " + e, ""))
+    if lines:
+        rc, ver, err = C.run_sharded("ulimit -s unlimited 2>/dev/null; " + drv["path"] + " srcfp", lines, timeout=1800)
+        by_id = {l.split(" ", 1)[0]: l for l in lines}
+        bad = [v for v in ver if v.split(" ")[1:2] != ["OK"]]
+        if rc != 0 or len(ver) != len(lines):
+            out.append(("INFRA", "driver srcfp exited %d (%d of %d verdicts): %s" % (rc, len(ver), len(lines), err[-800:]), ""))
+        for v in bad[:3]:
+            p = v.split(" ", 2)
+            inp = by_id.get(p[0], "")
+            out.append(("DIFF", p[2] if len(p) > 2 else v, inp if len(inp) < 200000 else ""))
+        out.append(("EVAL", str(len(ver)), ""))
+        ctx["notes"].append("source-derived footprints: %d (kernel, parameter) cases of %d kernels interpreted from the "
+                            "source and compared with the model, %d differ" % (len(lines), len(footprint_exec.KERNELS), len(bad)))
     return out
 
 
@@ -138,16 +172,58 @@ SPEC = dict(
     module="LMFootprint.C06",
     harness_bin="footprint",
     ml_modules=["footprint_model"],
-    n={"quick": 1500, "thorough": 40000},
-    search_n={"quick": 4000, "thorough": 40000},
+    n={"quick": 3000, "thorough": 40000},
+    search_n={"quick": 6000, "thorough": 40000},
     nontrivial=nontrivial,
     histogram=histogram,
     signature=signature,
+    translate=footprint_src.translate,
     extra=_extra,
     setup_extra=setup_extra,
-    rule="TODO",
-    trusted_base=[],
-    assumptions=[],
+    rule="Cases: corpus/C06 (witnesses of the repaired over-reads F08/F09/F25 and boundary cases) + generated: 80% histories of "
+         "safe public API calls on one set of buffers (encode/encode_raw/encode_into incl. one invalid letter and a destination of "
+         "the wrong length, EncodedSequence::encode, stripe/stripe_into/to_striped, StripedSequence::sample, configure/"
+         "configure_wrap, score_into/score_rows_into f32 and u8 with row ranges inside the sequence rows, reaching into the "
+         "look-ahead rows, past the matrix, empty and inverted, StripedScores::resize, max/argmax/threshold through the pipeline "
+         "and through StripedScores, Scanner (collect/max/mixed, block sizes 1..1000, own and caller-owned score buffer), Gibbs "
+         "Sampler, count_symbols, exact-capacity clones, re-encoding and re-striping into the same buffers), alphabets DNA/protein, "
+         "pipelines generic/SSE2/AVX2 and the dispatcher forced to each arm; lengths 0..40, around multiples of 16/32, "
+         "993..4200 with L mod 32 != 0, around 1024k; motif widths 0..80; 10% SSE2 pipeline with C in 16/32/48; 10% DenseMatrix "
+         "histories (new/with_capacity/resize/reserve/fill/clone/from_rows incl. ragged/Index incl. out of range/iterators) for "
+         "u8/u32/f32 x C in 5,7,16,21,32,48. Every case runs in two AddressSanitizer builds (dev profile and --release; spare Vec "
+         "capacity of read-only arguments poisoned) and in the plain debug build (debug_assert alignment checks, misaligned-pointer checks), each in a child "
+         "process that is restarted after a death. Per op the harness records the parameter tuple the kernel is entered with "
+         "(L, rows, capacity, wrap, M, strides, row range) and the outcome; the driver evaluates the extracted wrapper + footprint "
+         "model on that tuple: PROPFAIL = sanitizer report / crash / symbol code >= K left in a caller buffer; DIFF = guard outcome "
+         "(panic / early return / rows written) or stride differs from the model, or the extracted checker all_ok rejects a model "
+         "access. Source tie: 497 memory-relevant statements of the 44 functions the model was transcribed from are compared with "
+         "their pinned text, and every `unsafe` must lie inside them. Non-trivial: distinct histories with an op that enters an "
+         "unsafe kernel (SIMD arm or native dispatcher), all SSE2-width cases, dense histories with from_rows/fill/clone/iterators.",
+    trusted_base=[
+        "Coq 8.16.1 kernel (coqc); vm_compute only in the refuted/non-vacuity statements; no native_compute",
+        "extraction: ExtrOcamlBasic only (nat, Z, positive, list kept as extracted inductives); OCaml 4.13.1",
+        "hand-written OCaml driver ocaml/footprint/driver.ml (parsing, selection of the kernel model per (pipeline, arm, element "
+        "size, K), comparison of guard outcomes; the in-bounds/alignment verdict itself is the extracted all_ok, proved sound)",
+        "Rust harness harness/src/bin/footprint.rs (op interpreter over the public API, catch_unwind, child-process orchestration, "
+        "poisoning of spare capacity through __asan_poison_memory_region); its sanitizer self-test runs on every check",
+        "AddressSanitizer of the nightly toolchain (rustc -Zsanitizer=address, compiler-rt): shadow memory, redzones of the "
+        "instrumented allocator; only lightmotif, its dependencies and the harness are instrumented (std is not rebuilt)",
+        "translate/footprint_src.py (brace-matching reader of the Rust sources; pinned text translate/footprint_pinned.json)",
+        "modelled, not verified: that the kernels perform exactly the accesses listed in FpModel.v (hand transcription of the "
+        "pointer arithmetic, tied by the sanitizer run and the source tie); extents rows*stride*size_of<T> and 32-byte row "
+        "alignment come from the dense layout model (C19) and are compared with .stride() on every op; semantics of the "
+        "load/store/stream/gather intrinsics (width, alignment requirement); gather lanes are symbol codes < K",
+        "NOT covered (said in DESIGN 3/C06): allocator and compiler correctness, reads of allocated-but-uninitialised memory "
+        "(encode_raw's set_len buffer on the error path, from_rows with a short iterator), data races, the NEON kernels "
+        "(do not compile on x86_64), Miri-level aliasing rules",
+    ],
+    assumptions=[
+        "host is x86_64 with AVX2 (Dispatch arms Generic/Sse2/Avx2; native dispatch = AVX2)",
+        "every stored symbol code is < K (type invariant of A::Symbol; checked by the harness on caller-owned buffers after encode_into)",
+        "a DenseMatrix<T,C> owns rows()*stride()*size_of::<T>() bytes starting at a 32-byte aligned address (C19 layout model; "
+        "the allocator honours the alignment of Row); slices and stack arrays have no alignment guarantee",
+        "in-contract = safe public API only (DenseMatrix::uninitialized/ravel/ravel_mut are `unsafe fn` and outside the contract)",
+    ],
 )
 
 
@@ -156,8 +232,10 @@ def main(tier, seed, replay):
     if r["ok"]:
         # read by `footprint run` (vlib.common.run_sharded passes C.ENV to the children)
         C.ENV["LM_FP_ASAN_BIN"] = r["path"]
+        C.ENV["LM_FP_ASAN_REL_BIN"] = r["rel_path"]
     else:
         # `run` then prints asan=NOASAN for every case: the driver reports the missing verdict as a
         # broken tie and _extra() names the build failure
         C.ENV["LM_FP_ASAN_BIN"] = "/nonexistent/footprint-asan"
+        C.ENV["LM_FP_ASAN_REL_BIN"] = "/nonexistent/footprint-asan-release"
     return runner.run_property(SPEC, tier, seed, replay)
